@@ -616,9 +616,83 @@ func ruleLockOrder(c *Ctx) {
 		}
 		return out
 	}
+	// synchronous hand-offs: f gives a closure away (queue, goroutine) and then blocks on a channel that
+	// only that closure closes or sends on — f holds whatever it holds until the closure has run, so the
+	// closure's acquisitions count as f's own (Dispose: queue the teardown on the worker, wait for it)
+	waits := map[*ssa.Function][]*ssa.Function{}
+	for _, f := range p.Repo {
+		recvOn := map[ssa.Value]bool{}
+		for _, in := range instrsOf(f) {
+			switch x := in.(type) {
+			case *ssa.UnOp:
+				if x.Op == token.ARROW {
+					if l, ok := x.X.(*ssa.UnOp); ok && l.Op == token.MUL {
+						recvOn[l.X] = true
+					} else {
+						recvOn[x.X] = true
+					}
+				}
+			case *ssa.Select:
+				for _, st := range x.States {
+					if st.Dir == types.RecvOnly {
+						if l, ok := st.Chan.(*ssa.UnOp); ok && l.Op == token.MUL {
+							recvOn[l.X] = true
+						} else {
+							recvOn[st.Chan] = true
+						}
+					}
+				}
+			}
+		}
+		if len(recvOn) == 0 {
+			continue
+		}
+		for _, in := range instrsOf(f) {
+			mc, ok := in.(*ssa.MakeClosure)
+			if !ok {
+				continue
+			}
+			cf := mc.Fn.(*ssa.Function)
+			for i, b := range mc.Bindings {
+				if !recvOn[b] || i >= len(cf.FreeVars) {
+					continue
+				}
+				fv := cf.FreeVars[i]
+				signals := false
+				for _, cin := range instrsOf(cf) {
+					var ch ssa.Value
+					if cl, ok := isBuiltinCall(cin, "close"); ok {
+						ch = cl.Call.Args[0]
+					} else if sd, ok := cin.(*ssa.Send); ok {
+						ch = sd.Chan
+					}
+					if ch == nil {
+						continue
+					}
+					if l, ok := ch.(*ssa.UnOp); ok && l.Op == token.MUL {
+						ch = l.X
+					}
+					if ch == ssa.Value(fv) {
+						signals = true
+					}
+				}
+				if signals {
+					waits[f] = append(waits[f], cf)
+				}
+			}
+		}
+	}
 	for changed := true; changed; {
 		changed = false
 		for _, f := range p.Repo {
+			for _, g := range waits[f] {
+				for k := range acq[g] {
+					if !acq[f][k] {
+						acq[f][k] = true
+						changed = true
+					}
+				}
+			}
 			for _, call := range callsIn(f) {
 				for _, g := range callees(f, call) {
 					for k := range acq[g] {
